@@ -19,6 +19,7 @@
 # THE SOFTWARE.
 from threading import Lock
 from time import time
+from math import isfinite
 from operator import itemgetter
 import json
 import re
@@ -97,8 +98,11 @@ class TextReporter(Reporter):
             out[-1] = num_samples # can just overwrite the last value, which is the run_id_id
             if num_samples == 0:
                 out.append("Failed")
-            else:
+            elif isfinite(mean):
                 out.append(int(round(mean, 0)))
+            else:
+                # a harness reported a value beyond the range of floats
+                out.append(mean)
 
             for i, v in enumerate(out):
                 column_value_sets[i].add(v)
